@@ -425,11 +425,14 @@ function compiler.compile_binary(cfile, outfile, compileopts)
   local binfile = outfile
   if not stringer.endswith(binfile, binext) then binfile = binfile .. binext end
   -- if the file with that hash already exists skip recompiling it
-  if not config.no_cache then
+  -- (an explicit output file may have been built from another source, and without the heading
+  -- the C file does not change when the compile command changes, so neither can be trusted;
+  -- modification times have a granularity of one second, thus the binary must be strictly newer)
+  if not config.no_cache and not config.output and not compileopts.nocheading then
     local cfile_mtime = fs.getmodtime(cfile)
     local binfile_mtime = fs.getmodtime(binfile)
     local binfile_size = fs.getsize(binfile)
-    if cfile_mtime and binfile_mtime and cfile_mtime <= binfile_mtime and
+    if cfile_mtime and binfile_mtime and cfile_mtime < binfile_mtime and
        binfile_size and binfile_size > 0 then
       if config.verbose then console.info("using cached binary " .. binfile) end
       return binfile, isexe
